@@ -51,6 +51,7 @@ def steps_of(tr):
 def pred_c05(tr, story):
     v = []
     prev = dict(cs="INIT", ic=0, hc=0)
+    accepted_start = None
     for i, (label, p, obs) in enumerate(steps_of(tr)):
         a, b = prev["cs"], p["cs"]
         ok = (a == b) or (b == "CLOSED") or (RANK[b] == RANK[a] + 1 and b != "CLOSED")
@@ -64,6 +65,10 @@ def pred_c05(tr, story):
             v.append(("C05/handshake_complete", f"handshake_complete={p['hc']} in state {b} (callback {i}, {label})", i))
         if label == "start" and a != "INIT" and "XRT" not in obs:
             v.append(("C05/start-guard", f"start_connection accepted in state {a}", i))
+        if label == "start" and "XRT" not in obs:
+            if accepted_start is not None:
+                v.append(("C05/second-start", f"start_connection accepted a second time on the same connection object (first at callback {accepted_start}, again at {i})", i))
+            accepted_start = i if accepted_start is None else accepted_start
         if label.startswith("finish:") and a != "SOCK" and "XRT" not in obs:
             v.append(("C05/finish-guard", f"finish_connection accepted in state {a}", i))
         prev = p
@@ -142,6 +147,12 @@ HARNESS_TIMERS = ()
 def pred_c08(tr, story):
     v = []
     steps = steps_of(tr)
+    # a close cause that reaches the connection closes it in that very callback: transport lost / end of stream
+    for i, (label, p, obs) in enumerate(steps):
+        if label in ("clost", "eof") and p["cs"] != "CLOSED":
+            v.append(("C08/not-closed-by-cause", f"the transport reported {'connection_lost' if label == 'clost' else 'end of stream'} (callback {i}) and the connection is still {p['cs']}: "
+                      "its socket, timers and tasks stay as they are", i))
+            break
     k = next((i for i, (_, p, _) in enumerate(steps) if p["cs"] == "CLOSED"), None)
     if k is None:
         return v
@@ -419,6 +430,10 @@ U = 1024  # time units per second
 
 def pred_c09(tr, story):
     v = []
+    # the elapsed time of a task is judged at its end only in stories where the clock moves at quiescent points
+    # (a story that advances the clock while callbacks are still queued makes tasks look late that are not)
+    sc = story.get("scenario", [])
+    time_moves_when_quiet = all(i > 0 and sc[i - 1] == ("drain",) for i, a in enumerate(sc) if a[0] == "adv_next") and not any(a[0] == "hop" for a in sc)
     steps = [(l, parse_proj(p), list(o)) for l, p, o in tr.steps if l != "silent"]
     now = 0
     started = {}      # tid -> (step, time, bound)
@@ -468,6 +483,8 @@ def pred_c09(tr, story):
                 continue
             s_i, t0, bound = started[tid]
             ended[tid] = i
+            if time_moves_when_quiet and now - t0 > bound and tid not in cancelled:
+                v.append(("C09/bound", f"task {tid} ended {now - t0} units after it started (bound {bound}, 1/1024 s)", i))
             if res == "ok":
                 continue
             if res == "C":
@@ -595,6 +612,11 @@ def window_stories():
     # C09 windows: faults in every connect phase, silence, first cause vs following socket-closed
     for r in ("L.Resolve", "R.OSError", "R.Other", "L.Conn"):
         story([("start",), ("drain",), ("resolved", r, 1)])
+        # ... and a second start_connection() on the object whose first attempt failed, at every stage
+        story([("start",), ("drain",), ("resolved", r, 1), ("drain",), ("start",), ("drain",), ("resolved", None, 1), ("drain",), ("tcp", None)])
+    story([("start",), ("drain",), ("resolved", None, 1), ("drain",), ("tcp", "R.OSError"), ("drain",), ("start",), ("drain",), ("resolved", None, 1), ("drain",), ("tcp", None)])
+    story([("start",), ("drain",), ("cancel", "S"), ("drain",), ("start",), ("drain",), ("resolved", None, 1), ("drain",), ("tcp", None)])
+    story([("start",), ("drain",), ("adv_next",), ("drain",), ("start",), ("drain",), ("resolved", None, 1), ("drain",), ("tcp", None)])
     story([("start",), ("drain",), ("adv_next",), ("drain",)])                                      # resolve hangs
     for g in (1, 2, 3):
         story([("start",), ("drain",), ("resolved", None, g), ("drain",)] + [("adv_next",), ("drain",)] * (g + 1))   # connect hangs
@@ -608,6 +630,11 @@ def window_stories():
     story([("start",), ("drain",), ("cancel", "S"), ("drain",)])
     story(est + [("disc",), ("drain",), ("adv_next",), ("drain",), ("adv_next",), ("drain",)])          # no disconnect response
     story(connect_prefix() + [("disc",), ("drain",), ("adv_next",), ("drain",), ("adv_next",), ("drain",)])   # disconnect during handshake
+    # ... whose wait for the connect phase timed out (a fatal cause is recorded, nothing is closed yet), then a close cause of every kind
+    for cause in CLOSE_CAUSES:
+        story(connect_prefix() + [("disc",), ("drain",), ("adv_next",), ("drain",), cause, ("drain",), ("data", [H(SWITCH_STATE, tag=1)]), ("send", [33])])
+        story(connect_prefix() + [("sub", SWITCH_STATE, 1), ("disc",), ("drain",), ("adv_next",), ("drain",), ("data", [H(SWITCH_STATE, tag=1)]), cause, ("drain",),
+                                  ("data", [H(SWITCH_STATE, tag=2)])])
     story(est + [CALLS[0], ("drain",), ("lost", "R.OSError"), ("drain",)])
     story(est + [CALLS[0], CALLS[1], ("drain",), ("lost", "R.Other"), ("drain",)])
     story(est + [("disc",), ("drain",), ("lost", "R.Other"), ("drain",)])
